@@ -308,12 +308,12 @@ class ParametriseTransformation(Transformation):
             for call in FindNodes(ir.CallStatement).visit(routine.body):
                 if str(call.name) in successor_map:
                     successor_map[str(call.name)].trafo_data[self._key] = {}
-                    arg_map = dict(call.arg_iter())
-                    arg_map_reversed = {v: k for k, v in arg_map.items()}
-                    indices = [call.arguments.index(var2p) for var2p in vars2p if var2p in call.arguments]
+                    # dummy arguments by position (positional arguments come first in arg_iter)
+                    dummies = [dummy for dummy, _ in call.arg_iter()]
+                    indices = [index for index, arg in enumerate(call.arguments) if arg in vars2p]
                     for index in indices:
                         name = str(call.name)
-                        successor_map[name].trafo_data[self._key][str(arg_map_reversed[call.arguments[index]])] = \
+                        successor_map[name].trafo_data[self._key][str(dummies[index])] = \
                             dic2p[call.arguments[index].name]
                     arguments = tuple(arg for arg in call.arguments if arg not in vars2p)
                     call_map[call] = call.clone(arguments=arguments)
